@@ -271,3 +271,200 @@ def rd1(proj, rep, modules=None):
                 rep.undecided('RD1', fi.qual, f'dm arm `{ast.unparse(v)[:60]}` is not the outer-product idiom', m, node)
     rep.count('RD1.return_dm_sites', n)
     return n
+
+
+# ------------------------------------------------------------------------------------------------ DT1
+RULE_DT1 = ('DT1: a result buffer allocated with `dtype=<p>.dtype` of an array parameter p that has not been converted to floating point keeps an '
+            'integer dtype for integer input; storing a true-division / norm-normalised value into it truncates towards zero (Wtype([1,1,1]) '
+            'would return the zero vector). Either p is normalised (p = p / norm) or cast before the buffer is allocated, or the buffer dtype is '
+            'floating.')
+
+
+def dt1(proj, rep, modules):
+    rep.rule('DT1', RULE_DT1)
+    n = 0
+    for mq in modules:
+        m = proj.mod(mq)
+        rep.touch(m)
+        for fi in [f for f in proj.funcs.values() if f.module is m]:
+            params = set(fi.all_params)
+            for st in ast.walk(fi.node):
+                if not (isinstance(st, ast.Assign) and isinstance(st.targets[0], ast.Name) and isinstance(st.value, ast.Call)):
+                    continue
+                fname = ast.unparse(st.value.func)
+                if fname.split('.')[-1] not in ('zeros', 'empty', 'ones', 'full'):
+                    continue
+                dk = next((k.value for k in st.value.keywords if k.arg == 'dtype'), None)
+                if not (isinstance(dk, ast.Attribute) and dk.attr == 'dtype' and isinstance(dk.value, ast.Name) and dk.value.id in params):
+                    continue
+                p = dk.value.id
+                buf = st.targets[0].id
+                n += 1
+                # was p made floating before? (p = p / x, p = p * <float>, p = p.astype(float..), p = np.asarray(p, dtype=float..))
+                floated = False
+                for s2 in ast.walk(fi.node):
+                    if isinstance(s2, ast.Assign) and any(isinstance(t, ast.Name) and t.id == p for t in s2.targets) and s2.lineno < st.lineno:
+                        t = ast.unparse(s2.value).replace(' ', '')
+                        if (isinstance(s2.value, ast.BinOp) and isinstance(s2.value.op, ast.Div)) or 'astype(' in t or 'dtype=np.float' in t or 'dtype=np.complex' in t \
+                                or 'dtype=float' in t or 'dtype=complex' in t:
+                            floated = True
+                    if isinstance(s2, ast.AugAssign) and isinstance(s2.target, ast.Name) and s2.target.id == p and isinstance(s2.op, ast.Div) and s2.lineno < st.lineno:
+                        floated = True
+                # stores of a divided value into the buffer
+                bad = None
+                for s2 in ast.walk(fi.node):
+                    if isinstance(s2, ast.Assign) and isinstance(s2.targets[0], ast.Subscript) and isinstance(s2.targets[0].value, ast.Name) \
+                            and s2.targets[0].value.id == buf and s2.lineno > st.lineno:
+                        if any(isinstance(x, ast.BinOp) and isinstance(x.op, ast.Div) for x in ast.walk(s2.value)):
+                            bad = s2
+                if floated:
+                    rep.ok('DT1', fi.qual, f'`{buf}` takes the dtype of `{p}` after `{p}` was made floating point', m, st)
+                elif bad is not None:
+                    rep.violation('DT1', fi.qual, f'`{ast.unparse(bad)[:80]}` stores a true-division result into `{buf}`, allocated with dtype={p}.dtype of the '
+                                  f'unconverted parameter: for integer input the values are truncated (a normalised ket becomes the zero vector)', m, bad)
+                else:
+                    rep.ok('DT1', fi.qual, f'`{buf}` (dtype of `{p}`) only receives values of that dtype', m, st)
+    rep.count('DT1.buffers', n)
+    return n
+
+
+# ------------------------------------------------------------------------------------------------ ST1
+RULE_ST1 = ('ST1: a value derived from a list (np.concatenate / np.stack / np.array / len of it) is computed after the last in-place growth of that list '
+            '(append / extend / insert / +=) in the same function whenever both the derived value and the list reach the return value: otherwise '
+            'the returned pair is inconsistent (the array misses the elements appended later).')
+
+
+def st1(proj, rep, modules):
+    rep.rule('ST1', RULE_ST1)
+    n = 0
+    for mq in modules:
+        m = proj.mod(mq)
+        rep.touch(m)
+        for fi in [f for f in proj.funcs.values() if f.module is m]:
+            lists = {s.targets[0].id for s in ast.walk(fi.node) if isinstance(s, ast.Assign) and isinstance(s.targets[0], ast.Name)
+                     and isinstance(s.value, (ast.List, ast.ListComp))}
+            if not lists:
+                continue
+            for L in sorted(lists):
+                grows = [c for c in ast.walk(fi.node) if isinstance(c, ast.Call) and isinstance(c.func, ast.Attribute) and c.func.attr in ('append', 'extend', 'insert')
+                         and isinstance(c.func.value, ast.Name) and c.func.value.id == L]
+                derives = [s for s in ast.walk(fi.node) if isinstance(s, ast.Assign) and isinstance(s.value, ast.Call)
+                           and ast.unparse(s.value.func).split('.')[-1] in ('concatenate', 'stack', 'array', 'vstack', 'hstack')
+                           and s.value.args and isinstance(s.value.args[0], ast.Name) and s.value.args[0].id == L]
+                if not grows or not derives:
+                    continue
+                # loops: a derive inside the same loop body as the grow is a different pattern (accumulate-and-use); only straight-line order is decided
+                def in_loop(x):
+                    cur = x
+                    while hasattr(cur, '_parent') and cur is not fi.node:
+                        cur = cur._parent
+                        if isinstance(cur, (ast.For, ast.While, ast.ListComp)):
+                            return True
+                    return False
+                for d in derives:
+                    if in_loop(d):
+                        continue
+                    n += 1
+                    late = [g for g in grows if g.lineno > d.lineno and not in_loop(g)]
+                    if late:
+                        rep.violation('ST1', fi.qual, f'`{ast.unparse(d)[:70]}` is computed from `{L}` before `{ast.unparse(late[0])[:50]}` grows it: the derived '
+                                      f'array misses the elements appended later (under the option that guards the append)', m, d)
+                    else:
+                        rep.ok('ST1', fi.qual, f'`{ast.unparse(d)[:60]}` is computed after the last growth of `{L}`', m, d)
+    rep.count('ST1.derived_values', n)
+    return n
+
+
+# ------------------------------------------------------------------------------------------------ N2
+RULE_N2 = ('N2: a norm taken of an array that was explicitly flattened into a batch of vectors, `linalg.norm(X.reshape(-1, n), ...)`, names the vector '
+           'axis (`axis=1` / `dim=1`): without it NumPy returns ONE matrix norm of the whole stack (Frobenius, or the largest singular value for '
+           'ord=2), which equals the per-item norm only for a batch of one.')
+
+
+def n2(proj, rep, modules):
+    rep.rule('N2', RULE_N2)
+    n = 0
+    for mq in modules:
+        m = proj.mod(mq)
+        rep.touch(m)
+        for fi in [f for f in proj.funcs.values() if f.module is m]:
+            for c in ast.walk(fi.node):
+                if not (isinstance(c, ast.Call) and ast.unparse(c.func).endswith('linalg.norm') and c.args):
+                    continue
+                a = c.args[0]
+                if isinstance(a, ast.Name):
+                    asg = [s.value for s in ast.walk(fi.node) if isinstance(s, ast.Assign) and isinstance(s.targets[0], ast.Name) and s.targets[0].id == a.id]
+                    if len(asg) == 1:
+                        a = asg[0]
+                if not (isinstance(a, ast.Call) and isinstance(a.func, ast.Attribute) and a.func.attr == 'reshape' and len(a.args) == 2
+                        and ast.unparse(a.args[0]).replace(' ', '') == '-1'):
+                    continue
+                n += 1
+                has_axis = any(k.arg in ('axis', 'dim') for k in c.keywords) or len(c.args) >= 3
+                if has_axis:
+                    rep.ok('N2', fi.qual, f'`{ast.unparse(c)[:70]}` names the vector axis', m, c)
+                else:
+                    rep.violation('N2', fi.qual, f'`{ast.unparse(c)[:90]}`: the argument is a batch of vectors (reshape(-1, n)) but no axis is given: one matrix norm '
+                                  f'of the whole stack is returned, so every item of a batch of two or more is scaled by the wrong number', m, c)
+    rep.count('N2.batch_norms', n)
+    return n
+
+
+# ------------------------------------------------------------------------------------------------ AR1
+RULE_AR1 = ('AR1: subsystem roles keep their order through a call: when a numqi function / constructor has parameters named by ordered roles '
+            '(dimA,dimB | dim0,dim1 | dim_in,dim_out ...) and the caller passes names that carry ordered roles themselves, the order is preserved '
+            '(dim0 -> dimA, dim1 -> dimB). Swapped slots build the object for the transposed factorisation: invisible when both dimensions are '
+            'equal, wrong (e.g. not even PPT) for dimA != dimB.')
+
+import re as _re
+_ROLE = _re.compile(r'^(dim|N|n|num|d)(_?)(A|B|C|0|1|2|in|out)$')
+_RANK = {'A': 0, 'B': 1, 'C': 2, '0': 0, '1': 1, '2': 2, 'in': 0, 'out': 1}
+
+
+def _role(name):
+    mm = _ROLE.match(name.split('.')[-1])
+    return (mm.group(1), _RANK[mm.group(3)]) if mm else None
+
+
+def ar1(proj, rep, modules=None):
+    from ..project import bind_call
+    from ..callgraph import resolve_callee
+    rep.rule('AR1', RULE_AR1)
+    n = 0
+    for fi in proj.iter_functions():
+        m = fi.module
+        if modules is not None and not any(m.qual == q or m.qual.startswith(q + '.') for q in modules):
+            continue
+        for c in ast.walk(fi.node):
+            if not isinstance(c, ast.Call):
+                continue
+            r = resolve_callee(proj, m, c)
+            callee = r.node if r.kind == 'func' else (r.node.methods.get('__init__') if r.kind == 'class' else None)
+            if callee is None:
+                continue
+            try:
+                b = bind_call(c, callee)
+            except Exception:
+                continue
+            pairs = []
+            for p, a in b.args.items():
+                rp = _role(p)
+                if rp is None or a is None:
+                    continue
+                t = ast.unparse(a)
+                ra = _role(t) if _re.match(r'^[\w\.]+$', t) else None
+                if ra is not None:
+                    pairs.append((p, rp[1], t, ra[1]))
+            if len(pairs) < 2:
+                continue
+            n += 1
+            rep.touch(m)
+            bad = [(x, y) for i, x in enumerate(pairs) for y in pairs[i + 1:] if x[1] != y[1] and x[3] != y[3] and (x[1] < y[1]) != (x[3] < y[3])]
+            if bad:
+                x, y = bad[0]
+                rep.violation('AR1', fi.qual, f'`{ast.unparse(c)[:90]}` passes `{x[2]}` as {x[0]} and `{y[2]}` as {y[0]}: the subsystem roles are swapped '
+                              f'(callee {callee.qual})', m, c)
+            else:
+                rep.ok('AR1', fi.qual, f'`{ast.unparse(c)[:60]}`: roles {[(p[2], p[0]) for p in pairs]} in order', m, c)
+    rep.count('AR1.call_sites', n)
+    return n
